@@ -517,3 +517,32 @@ package carddav
 //@   ensures S3: !routedA(r) ==> mutations == old(mutations)
 //@   ensures S2: r.Method != "GET" && r.Method != "HEAD" ==> wstatus(w) != 0
 
+//@ -- ---------------------------------------------------------------------------------------
+//@ -- The PropFindFunc literals (C11 / C13): each satisfies the clauses assumed for calls through a PropFindFunc value
+//@ -- (specs: funcvalue:internal.PropFindFunc). Their preconditions speak about the captured variables, which hold
+//@ -- where the literal is created (precondition R1 of the creating function).
+//@ func carddav.(*backend).propFindAddressBook$1(raw) (val, err)
+//@   requires C1: *b != nil && (*b).Backend != nil
+//@   allocates
+//@   ensures V1: mutations == old(mutations) && epCalls == old(epCalls) && epCode == old(epCode) && epVal == old(epVal)
+//@   ensures V2: err != nil ==> beErr(err) || fromEnv(err)
+//@ func carddav.(*backend).propFindAddressObject$1(raw) (val, err)
+//@   requires C1: *b != nil && (*b).Backend != nil
+//@   allocates
+//@   ensures V1: mutations == old(mutations) && epCalls == old(epCalls) && epCode == old(epCode) && epVal == old(epVal)
+//@   ensures V2: err != nil ==> beErr(err) || fromEnv(err)
+//@ func carddav.(*backend).propFindAddressObject$2(raw) (val, err)
+//@   requires C1: *ao != nil
+//@   allocates
+//@   ensures V1: mutations == old(mutations) && epCalls == old(epCalls) && epCode == old(epCode) && epVal == old(epVal)
+//@   ensures V2: err != nil ==> beErr(err) || fromEnv(err)
+//@ func carddav.(*backend).propFindHomeSet$1(raw) (val, err)
+//@   requires C1: *b != nil && (*b).Backend != nil
+//@   allocates
+//@   ensures V1: mutations == old(mutations) && epCalls == old(epCalls) && epCode == old(epCode) && epVal == old(epVal)
+//@   ensures V2: err != nil ==> beErr(err) || fromEnv(err)
+//@ func carddav.(*backend).propFindUserPrincipal$1(raw) (val, err)
+//@   requires C1: *b != nil && (*b).Backend != nil
+//@   allocates
+//@   ensures V1: mutations == old(mutations) && epCalls == old(epCalls) && epCode == old(epCode) && epVal == old(epVal)
+//@   ensures V2: err != nil ==> beErr(err) || fromEnv(err)
